@@ -43,3 +43,48 @@ MUTANTS = [
     dict(id="c11-benign-explicit-cov", props=["C11"], expect="silent",
          edits=[dict(file=R, old='(ot.PairPos, 2): [ReorderCoverage()]', new='(ot.PairPos, 2): [ReorderCoverage(coverage_attr="Coverage")]')]),
 ]
+
+MUTANTS += [
+    dict(id="c11-sorts-copy", props=["C11", "C12"], expect="R11e",
+         edits=[dict(file=R, old="                parallel_list = _get_dotted_attr(value, self.parallel_list_attr)\n", new="                parallel_list = list(_get_dotted_attr(value, self.parallel_list_attr))\n")]),
+    dict(id="c11-sort-key-parallel", props=["C11"], expect="R11e",
+         edits=[dict(file=R, old="            key=lambda t: get_glyph_id(t[0]),", new="            key=lambda t: t[0],")]),
+    dict(id="c11-not-in-place", props=["C11"], expect="R11e",
+         edits=[dict(file=R, old="        parallel_list[:] = sorted_parallel_list", new="        parallel_list = sorted_parallel_list")]),
+    dict(id="c11-argsort-inverse", props=["C11"], expect="R11e",
+         edits=[dict(file=R, old="""    if parallel_list:
+        reordered = sorted(
+            ((g, e) for g, e in zip(glyphs, parallel_list)),
+            key=lambda t: get_glyph_id(t[0]),
+        )
+        sorted_glyphs, sorted_parallel_list = map(list, zip(*reordered))
+        parallel_list[:] = sorted_parallel_list
+    else:
+        sorted_glyphs = sorted(glyphs, key=get_glyph_id)
+
+    glyphs[:] = sorted_glyphs""", new="""    gids = [get_glyph_id(g) for g in glyphs]
+    order = sorted(range(len(glyphs)), key=gids.__getitem__)
+    if parallel_list:
+        entries = list(parallel_list)
+        for src, dst in enumerate(order):
+            parallel_list[dst] = entries[src]
+    glyphs[:] = [glyphs[i] for i in order]""")]),
+    dict(id="c11-benign-argsort-gather", props=["C11"], expect="silent",
+         edits=[dict(file=R, old="""    if parallel_list:
+        reordered = sorted(
+            ((g, e) for g, e in zip(glyphs, parallel_list)),
+            key=lambda t: get_glyph_id(t[0]),
+        )
+        sorted_glyphs, sorted_parallel_list = map(list, zip(*reordered))
+        parallel_list[:] = sorted_parallel_list
+    else:
+        sorted_glyphs = sorted(glyphs, key=get_glyph_id)
+
+    glyphs[:] = sorted_glyphs""", new="""    gids = [get_glyph_id(g) for g in glyphs]
+    order = sorted(range(len(glyphs)), key=gids.__getitem__)
+    if parallel_list:
+        entries = list(parallel_list)
+        for dst, src in enumerate(order):
+            parallel_list[dst] = entries[src]
+    glyphs[:] = [glyphs[i] for i in order]""")]),
+]
